@@ -68,6 +68,7 @@ def strategy(tier):
     pre = st.sampled_from([0, 0, 0, 1, 2])
     a = st.tuples(NC.clean_network(maxN=14 if tier == "quick" else 40, minN=4, max_motifs=12 if tier == "quick" else 40), r, st.booleans(), pre).map(
         lambda t: {"net": t[0], "r": t[1], "names_as_tuple": t[2], "name_prefix": t[3]})
+    a = st.tuples(a, st.integers(0, 3)).map(lambda t: {**t[0], "swap_after_construct": True} if t[1] == 0 else t[0])
     b = st.tuples(free_network(tier), r, st.booleans(), pre).map(lambda t: {"net": t[0], "r": t[1], "names_as_tuple": t[2], "name_prefix": t[3]})
     return st.one_of(a, b, b)
 
@@ -179,6 +180,30 @@ def check(case):
     # a second extractor for the same network with the names in reverse order is built and kept alive, and the caller
     # may go on with a copy of the first
     decoy = call("construct-second-extractor", JointExcessJointDegree, {TN.NETWORK: G, TN.EDGE_NAMES: list(reversed(fresh_names))})
+    if case.get("swap_after_construct"):
+        # the network goes on living after the extractor was attached to it: a joint-degree-preserving double edge
+        # swap inside one topology (first admissible pair in a fixed order), then the matrices are asked for
+        from gcmpy import NetworkNames as NN
+        es = sorted(G.edges(data=True), key=lambda e: (repr(e[2].get(NN.TOPOLOGY)), repr(e[0]), repr(e[1])))
+        done = False
+        for i1 in range(len(es)):
+            for i2 in range(i1 + 1, len(es)):
+                (u, v, d1), (x, y, d2) = es[i1], es[i2]
+                if d1[NN.TOPOLOGY] != d2[NN.TOPOLOGY] or len({u, v, x, y}) < 4 or G.has_edge(u, y) or G.has_edge(x, v):
+                    continue
+                G.remove_edge(u, v)
+                G.remove_edge(x, y)
+                d1, d2 = dict(d1), dict(d2)
+                G.add_edge(u, y)
+                G.edges[u, y].update(d1)
+                G.add_edge(x, v)
+                G.edges[x, v].update(d2)
+                done = True
+                break
+            if done:
+                break
+        if done:
+            snap = (copy.deepcopy(dict(G.nodes(data=True))), copy.deepcopy({frozenset(e[:2]): e[2] for e in G.edges(data=True)}))
     ext = clone_point(ext, case)
     want = reference(G, names)
     T = Tj
@@ -250,5 +275,7 @@ def check(case):
             classes.add("labels_not_in_insertion_order")
         if case["net"].get("jd_type") == "list":
             classes.add("list_annotations")
+    if case.get("swap_after_construct"):
+        classes.add("network_rewired_between_construction_and_extraction")
     classes.add(f"r{case['r']}")
     return {"nontrivial": "ge2_excess_classes" in classes and case["r"] >= 2, "classes": sorted(classes)}
